@@ -35,6 +35,7 @@ class Repo:
         self._anc = {}
         self.nfile = 0
         self.ops = []            # human-readable operation log (for replay files)
+        self.force_ctime = None  # when set, the committer time of the next commit (one-shot)
         os.makedirs(path)
         self.git("init", "-q", "-b", "main")
         with open(os.path.join(path, ".gitignore"), "w") as f:
@@ -65,6 +66,8 @@ class Repo:
 
     def _commit_raw(self, msg, parents_extra):
         ct, at = self.rand_time(), self.rand_time()
+        if self.force_ctime is not None:
+            ct, self.force_ctime = self.force_ctime, None
         self.git("commit", "-q", "--allow-empty", "-m", msg, env={"GIT_COMMITTER_DATE": "@%d +0000" % ct, "GIT_AUTHOR_DATE": "@%d +0000" % at})
         sha = self.git("rev-parse", "HEAD")
         cid = len(self.commits)
